@@ -85,7 +85,7 @@ def _ltok(l, scale):
   if l is None:
     return '-'
   raw, conv = _lim_val(l)
-  return ('s:' if isinstance(l, tuple) else 'n:') + _vtok(conv, scale)
+  return ('s:' if isinstance(l, tuple) and l[0] == 's' else 'n:') + _vtok(conv, scale)
 
 
 def _call(f):
@@ -283,6 +283,12 @@ def gen_cases(rng, tier):
       for t in ([s, other, None, None], [other, s, None, None], [0, 100, s, None], [0, 100, None, s], [s, s, None, None]):
         for v in [None, NAN, 5, 2.5, 10, -1, 4, 6, 11, 'abc', ['huge', 1]]:
           cases.append({'kind': 'IR', 'lims': list(t), 'v': v, 'via': 'ctor'})
+  # numbers with type= (the declared type applies to every limit, also to one that is a number already): a single
+  # limit, so that the constructor's raw-limit consistency checks have nothing to compare
+  for n in (['n', 0.5, 'int'], ['n', 10.7, 'int'], ['n', -2.5, 'int'], ['n', 7, 'float']):
+    for t in ([n, None, None, None], [None, n, None, None]):
+      for v in [None, NAN, 0, 1, 0.5, 0.4, 10, 10.5, 10.7, 11, -2, -2.5, -3, 7, 6.9, 'abc']:
+        cases.append({'kind': 'IR', 'lims': list(t), 'v': v, 'via': 'ctor'})
   # --- all_in_range
   for mn, mx, mm, mx2 in [(0, 10, None, None), (None, 5, None, None), (2.5, None, None, None), (0, 10, 2, 8),
                           (5, 1, None, None), (None, None, None, None), (0, 10, -1, None), (0, 10, None, 11),
